@@ -130,12 +130,7 @@ func (r *Recorder) Add(caseJSON []byte, o Outcome) {
 		key := strings.Join(o.Classes, ",")
 		if len(r.Samples) < 6 && !r.sampleSeen[key] {
 			r.sampleSeen[key] = true
-			s := caseJSON
-			if len(s) > 6000 {
-				trunc, _ := json.Marshal(map[string]interface{}{"truncated_case_prefix": string(s[:6000]), "classes": o.Classes})
-				s = trunc
-			}
-			r.Samples = append(r.Samples, json.RawMessage(s))
+			r.Samples = append(r.Samples, json.RawMessage(abridge(caseJSON, o.Classes)))
 		}
 	}
 }
@@ -146,6 +141,49 @@ func CountExcluded(prop, what string) {
 	r.mu.Lock()
 	r.Excluded[what]++
 	r.mu.Unlock()
+}
+
+// abridge renders a case for the evidence: the same JSON with long strings (encoded messages, key material)
+// cut to their first 160 characters, so that a reader sees the whole structure of the case.
+func abridge(caseJSON []byte, classes []string) []byte {
+	var v interface{}
+	dec := json.NewDecoder(strings.NewReader(string(caseJSON)))
+	dec.UseNumber() // keep int64 nanosecond instants exact
+	if dec.Decode(&v) != nil {
+		return caseJSON
+	}
+	var walk func(x interface{}) interface{}
+	walk = func(x interface{}) interface{} {
+		switch t := x.(type) {
+		case string:
+			if len(t) > 200 {
+				return fmt.Sprintf("%s… (%d characters)", t[:160], len(t))
+			}
+			return t
+		case []interface{}:
+			if len(t) > 24 {
+				t = append(append([]interface{}{}, t[:24]...), fmt.Sprintf("… (%d elements)", len(t)))
+			}
+			for i := range t {
+				t[i] = walk(t[i])
+			}
+			return t
+		case map[string]interface{}:
+			for k := range t {
+				t[k] = walk(t[k])
+			}
+			return t
+		}
+		return x
+	}
+	out, err := json.Marshal(map[string]interface{}{"classes": classes, "case": walk(v)})
+	if err != nil {
+		return caseJSON
+	}
+	if len(out) > 12000 {
+		out, _ = json.Marshal(map[string]interface{}{"classes": classes, "case_prefix": string(out[:12000])})
+	}
+	return out
 }
 
 // ---- known findings -------------------------------------------------------------
